@@ -1,7 +1,7 @@
 """Correspondence streams and direct oracles, per property.  run(ctx, P) is called by
 props.run_streams; P['stream_names'] lists which streams to run."""
 import random, re, itertools, os
-import vlib, corr, gens
+import vlib, corr, gens, model
 from corr import Case
 from gens import tok, tok_units, S
 
@@ -1126,7 +1126,190 @@ def stream_alias(ctx, r):
                 cases.append(Case(["parse 0 %s -" % tok(st), "setself 0 %s %s" % (w, g), "get 0"], "alias"))
     return cases
 
+
+# ---------------------------------------------------------------- serializer / setter operation sequences (Impl/Serializer.v)
+def hx_(s):
+    b = s.encode("utf-8") if isinstance(s, str) else bytes(s)
+    return b.hex().upper() if b else "-"
+
+SER_SCHEMES = ["http", "https", "file", "file", "a", "non-spec", "ws", "x.y+z", "f"]
+SER_TEXT = ["", "a", "b", "ab", "u", "p%40", "x y", "%41", "0", "80", "65535", "h", "example.com", "[::1]", "1.2.3.4", "localhost", "C:", "c:", "C|", "..", ".", "  ", " ", "a ", "q=1&r", "?", "#", "/", "//", ":", "@", "a" * 40]
+
+def ser_text(r):
+    return r.choice(SER_TEXT) if r.random() < 0.85 else "".join(r.choice("ab/:@?# .%C|") for _ in range(r.randint(1, 9)))
+
+def ser_path_ops(r, file_scheme):
+    ops = []
+    for _ in range(r.randint(0, 6)):
+        x = r.random()
+        seg = r.choice(["C:", "c:", "D|", "", "", "a", "b", "x y", "..a", "a" * 20]) if file_scheme or x < 0.3 else ser_text(r).replace("/", "")
+        if x < 0.12: ops.append("sh")
+        elif x < 0.2: ops.append("pe")
+        elif x < 0.26: ops += ["sh", "pe"]
+        else: ops += ["ps", "a:" + hx_(seg), "pv"]
+    return ops
+
+def ser_fresh_case(r):
+    """the operation sequence of a parse into an empty object (url_serializer), from generated components"""
+    scheme = r.choice(SER_SCHEMES)
+    file_scheme = scheme == "file"
+    ops = ["ss", "a:" + hx_(scheme), "vs"]
+    opaque = (not file_scheme) and scheme in ("a", "non-spec", "x.y+z", "f") and r.random() < 0.3
+    if opaque:
+        ops.append("fl2048")
+    has_host = (not opaque) and (scheme in ("http", "https", "ws") or r.random() < 0.6)
+    if has_host:
+        if file_scheme:
+            k = r.random()
+            if k < 0.3: ops.append("seh")
+            elif k < 0.5: ops += ["seh", "hs", "a:" + hx_(r.choice(["h", "host.example", "localhost"])), "hd2"]
+            elif k < 0.7: ops += ["hs", "a:" + hx_("localhost"), "hd2", "eh"]
+            else: ops += ["hs", "a:" + hx_(r.choice(["h", "1.2.3.4", "[::1]"])), "hd%d" % r.choice([2, 3, 4])]
+        else:
+            if r.random() < 0.4:
+                ops += ["sp2", "a:" + hx_(ser_text(r).replace("/", "")), "sv"]
+                if r.random() < 0.6:
+                    ops += ["sp3", "a:" + hx_(r.choice(["p", "pw", "%3A", "x" * 12])), "sv"]
+            if r.random() < 0.1 and scheme not in ("http", "https", "ws"):
+                ops += ["hs", "hd0"]
+            else:
+                ops += ["hs", "a:" + hx_(r.choice(["h", "example.com", "1.2.3.4", "[::1]", "a" * 30])), "hd%d" % r.choice([1, 2, 3, 4])]
+                if r.random() < 0.4:
+                    ops += ["sp6", "a:" + hx_(r.choice(["0", "8080", "65535", "1"])), "sv", "fl64"]
+    if opaque:
+        ops += ["pss", "a:" + hx_(r.choice(["", "x", "a b", "  ", "p ", "x/y", "blank  "])), "psv"]
+    else:
+        if not has_host and r.random() < 0.5:
+            ops += ["pe"] if r.random() < 0.5 else []
+        ops += ser_path_ops(r, file_scheme)
+        ops.append("cp")
+    if r.random() < 0.45:
+        ops += ["sp9", "a:" + hx_(ser_text(r).replace("#", "")), "sv", "fl512"]
+    if r.random() < 0.4:
+        ops += ["sp10", "a:" + hx_(ser_text(r)), "sv", "fl1024"]
+    return "ser S - 0,0,0,0,0,0,0,0,0,0,0 269 0 0 " + " ".join(ops)
+
+def ser_setter_ops(r, ends, flags, file_scheme):
+    """the operation sequence of one setter call (url_setter), chosen among those legal for the state"""
+    host_nonnull = bool(flags & 32); opaque = bool(flags & 2048)
+    host_empty = ends[5] == ends[4] or not host_nonnull
+    kinds = ["hash", "hashclr", "search", "searchclr", "protocol"]
+    if host_nonnull and not host_empty and not file_scheme:
+        kinds += ["username", "password", "port", "portclr", "username", "password"]
+    if not opaque:
+        kinds += ["host", "host", "pathname", "pathname"]
+        if not file_scheme:
+            kinds += ["hostport"]
+        has_cred = ends[3] > ends[1]; has_port = bool(flags & 64)
+        if not file_scheme and not has_cred and not has_port and not (flags & 0):
+            kinds += ["hostempty"]
+        if file_scheme:
+            kinds += ["filehost_empty", "filehost_localhost"]
+    k = r.choice(kinds)
+    t = hx_(ser_text(r))
+    if k == "hash": return ["sp10", "a:" + t, "sv", "fl1024"]
+    if k == "hashclr": return ["cl10", "st"]
+    if k == "search": return ["sp9", "a:" + hx_(ser_text(r).replace("#", "")), "sv", "fl512"]
+    if k == "searchclr": return ["cl9", "st"]
+    if k == "protocol":
+        ops = ["ss", "a:" + hx_(r.choice(["https", "ws", "ftp", "b", "longer-scheme", "x"]) if not file_scheme else "file"), "vs"]
+        if r.random() < 0.3: ops.append("cl6")
+        return ops
+    if k == "username": return ["sp2", "a:" + hx_(ser_text(r).replace("/", "").replace("@", "%40")), "sv"]
+    if k == "password": return ["sp3", "a:" + hx_(ser_text(r).replace("/", "").replace("@", "%40")), "sv"]
+    if k == "port": return ["sp6", "a:" + hx_(r.choice(["0", "1", "8080", "65535", "443"])), "sv", "fl64"]
+    if k == "portclr": return ["cl6"]
+    if k == "host": return ["hs", "a:" + hx_(r.choice(["h", "example.org", "1.2.3.4", "[::1]", "x" * 25])), "hd%d" % r.choice([1, 2, 3, 4])]
+    if k == "hostport": return ["hs", "a:" + hx_(r.choice(["h", "example.org"])), "hd2", "sp6", "a:" + hx_(r.choice(["1", "8080"])), "sv", "fl64"]
+    if k == "hostempty": return ["hs", "hd0"]
+    if k == "filehost_empty": return ["seh"]
+    if k == "filehost_localhost": return ["hs", "a:" + hx_("localhost"), "hd2", "eh"]
+    if k == "pathname":
+        ops = ser_path_ops(r, file_scheme)
+        if not host_nonnull and r.random() < 0.5: ops = ["pe"] + ops
+        return ops + ["cp"]
+    return []
+
+SER_URLS = ["http://h/p", "http://u:p@h:81/a/b?q#f", "https://u@example.com/", "http://:p@h/x?y", "non-spec:/p", "non-spec:/.//p", "non-spec://h/p?q", "non-spec://h", "a:b", "a:b  ", "a:b  #f", "a:b ?q",
+            "a:  ?q#f", "file:///C:/a/b", "file://host/C:/x", "file:///", "file:///a/../b", "ws://h:8080/x#", "http://h/?#", "non-spec://u:p@h:5/a/b/c?q#f", "non-spec:///p", "non-spec://@h//x", "a:/..//x",
+            "http://[::1]:8080/", "http://1.2.3.4/", "blob:https://h/u", "mailto:a@b?c", "x://h:1", "x://h:1?q", "x://h#f", "x:/a/b#f"]
+
+def stream_serops(ctx, r):
+    """Operation sequences of url_serializer / url_setter on explicit representations: (1) parses into an empty
+    object from generated components, (2) setter sequences on the raw representation of real parsed objects,
+    (3) setter sequences on the representations (2) ended in, (4) direct replace_part / fill_parts_offset calls."""
+    cases = [Case([ser_fresh_case(r)], "ser") for _ in range(scale(ctx, 1500, 12000))]
+    drv, err = model.ensure_driver(ctx.bd, "pinned")
+    if drv is None:
+        return cases
+    urls = list(SER_URLS) + gens.TRAPS + [gens.gen_url(r) for _ in range(scale(ctx, 400, 3000))]
+    pre = []
+    for u in urls:
+        lines = ["parse 0 %s -" % tok(u)]
+        if r.random() < 0.4:
+            lines.append("set 0 %s %s" % (r.choice(["hash", "search", "pathname", "host", "username", "port"]), tok(r.choice(["", "x", "/a/b", "h", "81", "q#"]))))
+        lines.append("raw 0")
+        pre.append(Case(lines))
+    outs = corr.run_cases(drv, pre, 600)
+    states = []
+    for o in outs:
+        if o and o[-1].startswith("raw ") and o[-1].endswith(" 1"):
+            t = o[-1].split(" ")
+            states.append((t[1], t[2], int(t[3]), t[4], t[5]))
+    states = sorted(set(states))
+    second = []
+    def one(st, depth):
+        norm, ends_s, flags, segs, filef = st
+        ends = [int(x) for x in ends_s.split(",")]
+        ops = ser_setter_ops(r, ends, flags, filef == "1")
+        if not ops:
+            return None
+        return "ser T %s %s %d %s %s %s" % (norm, ends_s, flags, segs, filef, " ".join(ops))
+    lines2 = []
+    for st in states:
+        for _ in range(scale(ctx, 3, 12)):
+            l = one(st, 0)
+            if l: lines2.append(l)
+    cases += [Case([l], "ser") for l in lines2]
+    # (3) continue from the final states of (2)
+    outs2 = corr.run_cases(drv, [Case([l]) for l in lines2], 600)
+    lines3 = []
+    for l, o in zip(lines2, outs2):
+        if not o or not o[0].startswith("ser") or "ERR" in o[0] or "EXC" in o[0] or "CRASH" in o[0]:
+            continue
+        fin = o[0].split(" | ")[-1].split(" ")
+        if len(fin) < 5:
+            continue
+        st = (fin[0], fin[1], int(fin[2]), fin[3], fin[4])
+        for _ in range(2):
+            l3 = one(st, 1)
+            if l3: lines3.append(l3)
+    cases += [Case([l], "ser") for l in lines3]
+    # (4) direct replace_part on legal ranges, fill_parts_offset
+    for st in states[: scale(ctx, 300, 3000)]:
+        norm, ends_s, flags, segs, filef = st
+        ends = [int(x) for x in ends_s.split(",")]
+        setp = [i for i in range(11) if ends[i]]
+        if not setp:
+            continue
+        last = r.choice(setp); first = r.randint(1 if last else 0, last) if last else 0
+        s_ = ser_text(r); n0 = r.randint(0, len(s_.encode()))
+        ops = ["rp%d,%d,%d:%s" % (last, first, n0, hx_(s_))]
+        if r.random() < 0.5:
+            lp = r.choice(setp); ops.append("rp%d,%d,0:%s" % (lp, lp, hx_(ser_text(r))))
+        if r.random() < 0.3:
+            t1 = r.randint(1, 10); ops.append("fi%d,%d,%d" % (t1, r.randint(t1, 11), r.randint(0, 50)))
+        cases.append(Case(["ser %s %s %s %d %s %s %s" % (r.choice("ST"), norm, ends_s, flags, segs, filef, " ".join(ops))], "ser"))
+    kinds = {}
+    for c in cases:
+        for t in c.lines[0].split(" ")[7:]:
+            k = re.match(r"[a-z]+", t).group(0)
+            kinds[k] = kinds.get(k, 0) + 1
+    ctx.cov["serops_distribution"] = {"lines": len(cases), "distinct_start_states": len(states), "operations_by_kind": kinds}
+    return cases
+
 STREAMS = {
+    "serops": (stream_serops, oracle_state),
     "alias": (stream_alias, oracle_state),
     "fmt": (stream_fmt, oracle_state),
     "setapply": (stream_setapply, oracle_state),
@@ -1156,7 +1339,7 @@ def run(ctx, P):
         r = random.Random(ctx.seed * 1000003 + hash(name) % 1000)
         r = random.Random("%d/%s" % (ctx.seed, name))
         cases = build(ctx, r)
-        for cfg, variant in [(c, v) for c in P.get("configs", ["pinned"]) for v in P.get("model_variants", ["spec"])]:
+        for cfg, variant in [(c, v) for c in P.get("configs", ["pinned"]) for v in (["spec"] if name in ("serops", "buffer") else P.get("model_variants", ["spec"]))]:
             out = corr.compare_stream(ctx, name, cases, cfg, oracle, known, variant=variant)
             res["violations"] += out["violations"]
             for k in out["known"]:
